@@ -136,9 +136,25 @@ type CondLit struct {
 	If   *ssa.If
 }
 
+// String renders the literal canonically: negations are folded into the comparison operator and `!x` taken false prints as `x`,
+// so that equivalent formulations of one guard (early return vs. nested if, == vs. !=) print the same.
 func (l CondLit) String() string {
-	s := exprStr(l.Cond)
-	if !l.Pol {
+	v, pol := l.Cond, l.Pol
+	for {
+		u, ok := v.(*ssa.UnOp)
+		if !ok || u.Op != token.NOT {
+			break
+		}
+		v, pol = u.X, !pol
+	}
+	if b, ok := v.(*ssa.BinOp); ok && !pol {
+		flip := map[token.Token]token.Token{token.EQL: token.NEQ, token.NEQ: token.EQL, token.LSS: token.GEQ, token.GEQ: token.LSS, token.GTR: token.LEQ, token.LEQ: token.GTR}
+		if f, ok := flip[b.Op]; ok {
+			return "(" + exprStr(b.X) + " " + f.String() + " " + exprStr(b.Y) + ")"
+		}
+	}
+	s := exprStr(v)
+	if !pol {
 		return "!" + s
 	}
 	return s
@@ -212,4 +228,67 @@ func dataDeps(fn *ssa.Function, src map[ssa.Value]bool) map[ssa.Value]bool {
 		})
 	}
 	return out
+}
+
+// linear flattens an integer expression built from + and - (and constants) into coefficient-per-term form, so that expressions
+// that differ only in association, order or hoisted temporaries compare equal. Terms are rendered with exprStr after `rename`.
+func linear(v ssa.Value, rename func(string) string) (map[string]int64, int64) {
+	terms := map[string]int64{}
+	var konst int64
+	var walk func(v ssa.Value, sign int64, depth int)
+	walk = func(v ssa.Value, sign int64, depth int) {
+		if k, ok := constInt(v); ok {
+			konst += sign * k
+			return
+		}
+		if b, ok := v.(*ssa.BinOp); ok && depth < 20 {
+			switch b.Op {
+			case token.ADD:
+				if bt, ok := b.Type().Underlying().(*types.Basic); ok && bt.Info()&types.IsInteger != 0 {
+					walk(b.X, sign, depth+1)
+					walk(b.Y, sign, depth+1)
+					return
+				}
+			case token.SUB:
+				walk(b.X, sign, depth+1)
+				walk(b.Y, -sign, depth+1)
+				return
+			}
+		}
+		if c, ok := v.(*ssa.Convert); ok {
+			if bt, ok := c.X.Type().Underlying().(*types.Basic); ok && bt.Info()&types.IsInteger != 0 {
+				walk(c.X, sign, depth+1)
+				return
+			}
+		}
+		s := exprStr(v)
+		if rename != nil {
+			s = rename(s)
+		}
+		terms[s] += sign
+		if terms[s] == 0 {
+			delete(terms, s)
+		}
+	}
+	walk(v, 1, 0)
+	return terms, konst
+}
+
+func linearString(v ssa.Value, rename func(string) string) string {
+	t, k := linear(v, rename)
+	var parts []string
+	for _, name := range sortedKeys(t) {
+		switch t[name] {
+		case 1:
+			parts = append(parts, "+"+name)
+		case -1:
+			parts = append(parts, "-"+name)
+		default:
+			parts = append(parts, fmt.Sprintf("%+d*%s", t[name], name))
+		}
+	}
+	if k != 0 || len(parts) == 0 {
+		parts = append(parts, fmt.Sprintf("%+d", k))
+	}
+	return strings.Join(parts, " ")
 }
